@@ -145,7 +145,7 @@ Fixpoint needs_clean (is_root : bool) (w : wnode) : list binding :=
 Lemma wd_puts_unfold r pk sv mbh dirty cs :
   wd_puts H r (WN pk sv mbh dirty cs) =
   if negb dirty then []
-  else (match sv with Some v => if mbh then [(pk ++ H v, v)] else [] | None => [] end)
+  else (match sv with Some v => if mbh then [(pk ++ H v, v)] else [] | None => if mbh then [(pk ++ H [], [])] else [] end)
        ++ (if small r (WN pk sv mbh dirty cs) then []
            else (H (encode H (erase (WN pk sv mbh dirty cs))), encode H (erase (WN pk sv mbh dirty cs)))
                 :: flat_map (fun oc => match oc with None => [] | Some c => wd_puts H false c end) cs).
@@ -175,11 +175,13 @@ Proof.
   destruct (small r (WN pk sv mbh true cs)) eqn:Es.
   - unfold small in Es. apply andb_prop in Es as [Er Esz]. destruct r; [discriminate|].
     cbn [orb]. rewrite Esz. cbn [negb app]. rewrite app_nil_r.
-    intros x Hx. apply in_app_or in Hx as [Hx|Hx]; apply in_or_app; [now left|now right].
+    intros x Hx. apply in_app_or in Hx as [Hx|Hx]; apply in_or_app; [left|now right].
+    destruct sv; [assumption|contradiction].
   - assert (Hc : r || negb (length (encode H (erase (WN pk sv mbh true cs))) <? 32)%nat = true).
     { unfold small in Es. destruct r; [reflexivity|]. cbn in Es |- *. now rewrite Es. }
     rewrite Hc. intros x Hx.
-    apply in_app_or in Hx as [Hx|Hx]; [apply in_or_app; left; apply in_or_app; now left|].
+    apply in_app_or in Hx as [Hx|Hx];
+      [apply in_or_app; left; apply in_or_app; left; destruct sv; [assumption|contradiction]|].
     apply in_app_or in Hx as [Hx|Hx].
     + destruct Hx as [<-|[]]. apply in_or_app; left. apply in_or_app; right. now left.
     + apply in_flat_map in Hx as ([c|] & Hin & Hx); [|contradiction].
@@ -208,8 +210,8 @@ Proof.
   induction w as [pk sv mbh dirty cs IH] using wnode_ind'. intro r. rewrite wd_puts_unfold.
   destruct dirty; cbn [negb]; [|constructor].
   apply Forall_app; split.
-  - destruct sv as [v|]; [|constructor]. destruct mbh; constructor; [|constructor].
-    left. now exists pk, v.
+  - destruct sv as [v|]; destruct mbh; try (constructor; fail);
+      (constructor; [|constructor]); left; [now exists pk, v|now exists pk, []].
   - destruct (small r _); constructor.
     + right. eexists. reflexivity.
     + apply Forall_forall. intros x Hx. apply in_flat_map in Hx as ([c|] & Hin & Hx); [|contradiction].
